@@ -1,9 +1,9 @@
 (* C06 -- Confirmable requests are retransmitted correctly and boundedly.
-   Statements only; proofs in Retx/Proofs.v.  The model (Retx/Model.v) is the
+   Statements only; proofs in Retx/Proofs.v and Retx/ProofsCount.v.  The model (Retx/Model.v) is the
    sender side of udp/client.Conn; theorems quantify over ALL event histories
    (sends, virtual time, ticks, ACK/RST/responses in any order, cancellations). *)
 From Coq Require Import ZArith List Bool.
-From GoCoap Require Import Retx.Model Retx.Proofs.
+From GoCoap Require Import Retx.Model Retx.Proofs Retx.ProofsCount.
 Import ListNotations.
 Open Scope Z_scope.
 
@@ -68,6 +68,52 @@ Theorem C06_no_false_success : forall c evs id cd,
 Proof. exact success_needs_response. Qed.
 Print Assumptions C06_no_false_success.
 
+(* TRACE LEVEL: over EVERY event history (sends, virtual time, ticks, ACK/RST/piggybacked/separate responses
+   in any order, cancellations) in which the request ids are distinct, at most 1 + MAX_RETRANSMIT copies
+   of request id are ever put on the wire (cnt_obs id os = number of [Copy id] in the emissions os) *)
+Theorem C06_copies_bounded : forall c evs id,
+  0 <= max_rt c -> NoDup (send_ids evs) ->
+  cnt_obs id (outs c init evs) <= 1 + max_rt c.
+Proof. exact copies_bounded. Qed.
+Print Assumptions C06_copies_bounded.
+
+(* ... and without the distinctness hypothesis: 1 + MAX_RETRANSMIT copies per submission of the id *)
+Theorem C06_copies_bounded_general : forall c evs id,
+  0 <= max_rt c -> cnt_obs id (outs c init evs) <= (1 + max_rt c) * nsend id evs.
+Proof. exact copies_bounded_general. Qed.
+Print Assumptions C06_copies_bounded_general.
+
+(* the first transmission happens at most once and is emitted by an event other than Tick (the admission
+   of the request: its own Send or the event that frees an NSTART slot); every other copy is emitted by a
+   Tick (firsts/resends = copies of id emitted by non-Tick/Tick events), there are at most MAX_RETRANSMIT
+   of those and none unless the first transmission happened; if any copy is sent, exactly one is a first *)
+Theorem C06_first_copy_once : forall c evs id,
+  0 <= max_rt c -> NoDup (send_ids evs) ->
+  firsts id evs (outs c init evs) <= 1 /\
+  resends id evs (outs c init evs) <= max_rt c * firsts id evs (outs c init evs) /\
+  (0 < cnt_obs id (outs c init evs) -> firsts id evs (outs c init evs) = 1).
+Proof. exact first_copy_once. Qed.
+Print Assumptions C06_first_copy_once.
+
+Theorem C06_copies_split : forall c id evs s,
+  cnt_obs id (outs c s evs) = firsts id evs (outs c s evs) + resends id evs (outs c s evs).
+Proof. exact copies_split. Qed.
+Print Assumptions C06_copies_split.
+
+(* spacing at trace level: a Tick that re-sends request id after ANY history pre emits exactly one copy of
+   it; with k the number of re-sends of id in pre (this is the (k+1)-th), the pending entry's counter is k,
+   k < MAX_RETRANSMIT, and MORE than (k+1) x ACK_TIMEOUT elapsed since the first transmission *)
+Theorem C06_resend_spacing_trace : forall c pre id,
+  0 <= max_rt c -> NoDup (send_ids pre) ->
+  In (Copy id) (o_emit (snd (step c (final c init pre) Tick))) ->
+  cnt id (o_emit (snd (step c (final c init pre) Tick))) = 1 /\
+  exists p, In p (pending (final c init pre)) /\ p_id p = id /\
+            p_count p = resends id pre (outs c init pre) /\
+            p_count p < max_rt c /\
+            ack_ms c * (resends id pre (outs c init pre) + 1) < p_elapsed p.
+Proof. exact resend_spacing_trace. Qed.
+Print Assumptions C06_resend_spacing_trace.
+
 (* non-vacuity: defaults (2 s, 4 re-sends): copies at the ticks after 2, 4, 6, 8 s, none before, none after,
    entry dropped; and a request answered after the first re-send *)
 Example C06_instance :
@@ -77,3 +123,10 @@ Example C06_instance :
   = [1; 0; 0; 0; 1; 0; 1; 0; 1; 0; 1; 0; 0; 0]%nat
   /\ o_ret (snd (step c (final c init [Send 1 [1] None; Age 2100; Tick]) (Piggy 1 69))) = [(1, 0, 69)].
 Proof. vm_compute. split; reflexivity. Qed.
+
+(* the same history counted: 5 = 1 + MAX_RETRANSMIT copies, 1 first transmission, 4 re-sends *)
+Example C06_instance_count :
+  let c := {| ack_ms := 2000; max_rt := 4; nstart := 1 |} in
+  let evs := [Send 1 [1] None; Age 1900; Tick; Age 200; Tick; Age 2000; Tick; Age 2000; Tick; Age 2000; Tick; Age 2000; Tick; Tick] in
+  cnt_obs 1 (outs c init evs) = 5 /\ firsts 1 evs (outs c init evs) = 1 /\ resends 1 evs (outs c init evs) = 4.
+Proof. vm_compute. repeat split; reflexivity. Qed.
